@@ -49,7 +49,7 @@ func runC19(c *Ctx) {
 		purityTarget{"align", "*phaser", "Phase", []int{1, 2}},
 	)
 	c.purityObligations("input-unmodified", pure)
-	L.Floor("input-unmodified", 60, "purity obligations frozen from the resolved function set")
+	L.Floor("input-unmodified", 30, "purity obligations frozen from the resolved function set (floor = half of the instances on the pinned tree: a clean-up may merge instances, a rule that sees nothing must still fail)")
 
 	c.ownershipObligations("result-owns-data", []ownTarget{
 		{"align", "*align", "Clone", 0},
@@ -64,7 +64,7 @@ func runC19(c *Ctx) {
 		{"align", "*align", "Split", 0},
 		{"align", "*align", "RandSubAlign", 0},
 	})
-	L.Floor("result-owns-data", 11, "copy-producing operations of the property")
+	L.Floor("result-owns-data", 5, "copy-producing operations of the property (floor = half of the instances on the pinned tree: a clean-up may merge instances, a rule that sees nothing must still fail)")
 
 	// the aligner keeps clones of its inputs
 	c.checkAlignerHoldsClones()
